@@ -13,13 +13,23 @@
 
    of the form  b1^(pos-1) . w . b2^*  : a background regime b1, a window of Win
    free choices starting at header pos, and a background regime b2 afterwards
-   (b2 = b1 unless TwoRegime).  Every choice is resolved to a concrete timestamp
-   by the median rule of Difficulty.tla (NotBeforeMedian), so each emitted step
-   carries the timestamp, twice the median it was validated against, and the era
-   of the step.  The harness executes the skeleton on the real code and the trace
-   specification recomputes median and era from what the code recorded.       *)
+   (b2 = b1 unless TwoRegime).  A choice fixes the SECOND of the timestamp, which
+   is all the encoded header carries; the sub-second part of the instant the
+   header holds in memory is a dimension of its own, the class fr of the chain:
+
+     0 whole seconds (what a header holds after it went over the wire)
+     1 every header 1 ns after the second        2 every header 999 999 999 ns after it
+     3 alternating: odd headers 999 999 999 ns, even headers 0 ns after the second
+
+   It is an input that must make no difference: the window of the chain holds
+   the seconds.  Every choice is resolved to a concrete second by the median
+   rule of Difficulty.tla (NotBeforeMedian: the smallest admissible second
+   where the choice itself would be too old), so each emitted step carries the
+   instant, the median it was validated against, and the era of the step.  The
+   harness executes the skeleton on the real code and the trace specification
+   recomputes median and era from what the code recorded.                     *)
 EXTENDS Difficulty, TLC, Json
-CONSTANTS ShapeIds, Intervals, TargetIds, ChainLen, Win, TwoRegime, Spread
+CONSTANTS ShapeIds, Intervals, TargetIds, ChainLen, Win, TwoRegime, Spread, Fracs, FracSpread
 
 \* oakTime: the oak time (seconds) installed by the ASIC reset; the small values let the decayed time
 \* reach zero within the chain (the retargeting divides by it)
@@ -47,8 +57,14 @@ FullShapes == 1..6   \* the shapes whose chains pass through every era
 Choices == 0..7
 FarFuture == 3600000
 
-VARIABLES shape, interval, tgt, b1, b2, pos, h, prev, hist
-vars == <<shape, interval, tgt, b1, b2, pos, h, prev, hist>>
+VARIABLES shape, interval, tgt, b1, b2, pos, fr, h, prev, hist
+vars == <<shape, interval, tgt, b1, b2, pos, fr, h, prev, hist>>
+
+\* the sub-second part (nanoseconds) of header i of a chain of class f
+FracNs(f, i) == CASE f = 0 -> 0
+                  [] f = 1 -> 1
+                  [] f = 2 -> Giga - 1
+                  [] f = 3 -> IF i % 2 = 1 THEN Giga - 1 ELSE 0
 
 Net == [oak |-> Shapes[shape].oak, asic |-> Shapes[shape].asic, allow |-> Shapes[shape].allow,
         final |-> Shapes[shape].final, interval |-> interval, factor |-> 1]
@@ -59,11 +75,17 @@ Net == [oak |-> Shapes[shape].oak, asic |-> Shapes[shape].asic, allow |-> Shapes
 Init == /\ shape \in ShapeIds /\ interval \in Intervals /\ tgt = 0
         /\ b1 \in Choices /\ pos \in 1..ChainLen
         /\ b2 \in (IF TwoRegime THEN Choices ELSE {b1})
-        /\ h = 0 /\ prev = <<0>> /\ hist = <<>>
+        \* (FracSpread = 1: every chain in every sub-second class; FracSpread = n thins the product so that every
+        \*  class still meets every shape, interval, background and free choice)
+        /\ fr \in {f \in Fracs : (f + shape + interval + pos + b1) % FracSpread = 0}
+        /\ h = 0 /\ prev = << <<0, 0>> >> /\ hist = <<>>
 
-\* the timestamp a choice stands for; never before the median
-Resolve(c, q, I) ==
-  LET m2 == Median2(q)  mc == (m2 + 1) \div 2  p == q[1]
+\* the smallest second that is not before the instant m
+MinAdm(m) == IF m[2] = 0 THEN m[1] ELSE m[1] + 1
+\* the instant a choice stands for (the choice fixes the second, f is the sub-second part held in memory); the
+\* second is never before the median
+Resolve(c, q, I, f) ==
+  LET mc == MinAdm(Median(q))  p == q[1][1]
       cand == CASE c = 0 -> p + I
                 [] c = 1 -> mc
                 [] c = 2 -> mc + I
@@ -72,14 +94,14 @@ Resolve(c, q, I) ==
                 [] c = 5 -> p - 1
                 [] c = 6 -> p + FarFuture
                 [] c = 7 -> p
-  IN IF cand < mc THEN mc ELSE cand
+  IN <<IF cand < mc THEN mc ELSE cand, f>>
 
-Step(c) == LET ts == Resolve(c, prev, interval) IN
+Step(c) == LET ts == Resolve(c, prev, interval, FracNs(fr, h + 1))  med == Median(prev) IN
   /\ h' = h + 1
-  /\ prev' = Window(<<ts>> \o prev)
-  /\ hist' = Append(hist, <<c, ts, Median2(prev), EraRank(Era(Net, h + 1))>>)
+  /\ prev' = Window(<<Sec(ts)>> \o prev)
+  /\ hist' = Append(hist, <<c, ts[1], ts[2], med[1], med[2], EraRank(Era(Net, h + 1))>>)
   /\ tgt' \in (IF h + 1 = ChainLen THEN {t \in TargetIds : (t + pos + b1 + b2) % Spread = 0} ELSE {0})
-  /\ UNCHANGED <<shape, interval, b1, b2, pos>>
+  /\ UNCHANGED <<shape, interval, b1, b2, pos, fr>>
 
 Next == /\ h < ChainLen
         /\ LET i == h + 1 IN
@@ -90,16 +112,19 @@ Spec == Init /\ [][Next]_vars
 
 \* ---- sanity of the lattice (a failure here is a specification bug) --------------
 WellFormed == WellFormedNet(Net)
-\* every step of the history respected the median rule, eras only advance, timestamps stay small
-TimeRule == \A i \in DOMAIN hist : 2 * hist[i][2] >= hist[i][3] /\ hist[i][2] < 1073741824
-EraOrder == \A i \in DOMAIN hist : i > 1 => hist[i][4] >= hist[i - 1][4]
+\* every step of the history respected the median rule and carries the sub-second part of its class, eras only
+\* advance, timestamps stay small
+TimeRule == \A i \in DOMAIN hist : /\ ILe(<<hist[i][4], hist[i][5]>>, Sec(<<hist[i][2], hist[i][3]>>))
+                                    /\ hist[i][3] = FracNs(fr, i) /\ IsInstant(<<hist[i][2], hist[i][3]>>)
+                                    /\ hist[i][2] >= 0 /\ hist[i][2] < 1073741824
+EraOrder == \A i \in DOMAIN hist : i > 1 => hist[i][6] >= hist[i - 1][6]
 \* a complete chain has been through every era and through the scheduled reset
 Crossing == h = ChainLen => /\ Net.asic <= ChainLen /\ Net.final < ChainLen
-                            /\ (shape \in FullShapes => {hist[i][4] : i \in DOMAIN hist} = 1..4)
-                            /\ (Net.final <= 1 => {hist[i][4] : i \in DOMAIN hist} = {4})
+                            /\ (shape \in FullShapes => {hist[i][6] : i \in DOMAIN hist} = 1..4)
+                            /\ (Net.final <= 1 => {hist[i][6] : i \in DOMAIN hist} = {4})
 \* emission
 Emit == h = ChainLen =>
   PrintT("@@SKEL " \o ToJson([shape |-> shape, oak |-> Shapes[shape].oak, fix |-> Shapes[shape].fix,
                               asic |-> Shapes[shape].asic, allow |-> Shapes[shape].allow, final |-> Shapes[shape].final,
-                              oakTime |-> Shapes[shape].oakTime, interval |-> interval, tgt |-> tgt, b1 |-> b1, pos |-> pos, b2 |-> b2, steps |-> hist]))
+                              oakTime |-> Shapes[shape].oakTime, interval |-> interval, tgt |-> tgt, b1 |-> b1, pos |-> pos, b2 |-> b2, fr |-> fr, steps |-> hist]))
 =============================================================================
